@@ -265,6 +265,9 @@ class MetadataGenerator:
                 optional = True
                 while Null in types:
                     types.remove(Null)
+                if not types:
+                    # Nothing but null was observed (i.e. union of Unknown and Null)
+                    return Null
 
             meta_type = DUnion(*types)
             if len(meta_type.types) == 1:
